@@ -282,6 +282,7 @@ def gen_case_a(rng):
     clients = rng.choice([1, 1, 2, 4, 8, 16])
     kind = rng.choice(["composite", "composite", "composite", "scroll"])
     case = {"clients": clients, "kind": kind, "iterations": rng.choice([1, 2, 3]), "svc_seed": rng.randint(0, 1 << 30), "pc_offset": rng.choice([0.0, 777.25])}
+    case["target_hosts"] = rng.choice([1, 1, 2, 3])
     # failing wire requests (connection refused, request timeout, HTTP error status); the operation is sampled all the same
     # (on-error=continue). A failed composite returns no sub-request timings, so sleeps (whose span is only known from them) are left out
     case["fail_rate"] = rng.choice([0, 0, 0, 0.15, 0.4])
@@ -346,7 +347,13 @@ def run_case_a(case, scratch):
         task = track.Task("t", op, warmup_iterations=0, iterations=case["iterations"], clients=case["clients"])
         trk = track.Track("verif", challenges=[track.Challenge("c", default=True, schedule=[task])], indices=[track.Index("idx")])
         allocs = [(i, driver.TaskAllocation(task, i, i, case["clients"])) for i in range(case["clients"])]
-        sampler, exc = h.run(trk, allocs, on_error="continue")
+        extra = None
+        if case.get("target_hosts", 1) > 1:
+            # several target hosts: the transport's node pool hands the requests of a client to its nodes in turn; every node must be traced
+            from esrally.utils import opts as rally_opts
+
+            extra = {("client", "hosts"): rally_opts.TargetHosts(",".join(f"127.0.0.{n + 1}:9200" for n in range(case["target_hosts"])))}
+        sampler, exc = h.run(trk, allocs, on_error="continue", cfg_extra=extra)
     finally:
         h.close()
     return h, exc
